@@ -1,4 +1,6 @@
 import ZV.Model.C27
+import ZV.Model.C27Sel
+import ZV.Proofs.C27Sel
 /-!
   C27 — TLS peers authenticate each other as configured: the property's sentences, proved for every configuration
   of the acceptance-decision model (all key exchanges × all `ClientAuthType`s × every combination of the abstract
@@ -215,5 +217,439 @@ example : Hook.allows .permit = true ∧ Hook.allows .absent = true := ⟨rfl, r
 example : serverAcceptsH .permit .permit .requireAndVerify ⟨true, true, true⟩ = true := rfl
 example : requiresClientCert .requireAny = true ∧ (⟨false, false, false⟩ : ClientOffer).hasCert = false := ⟨rfl, rfl⟩
 example : (⟨false, true, true⟩ : ServerCred).chainOK = false := rfl
+
+/-! ## which certificate the server presents (`Config.getCertificate`, `BuildNameToCertificate`) -/
+
+/-- Without a `GetCertificate` callback the choice is the static one; a callback is not even consulted when certificates
+    are configured and the client sent no ServerName. -/
+theorem getCertificate_hook_not_consulted (hook : GetCertHook) (ncerts : Nat) (n2c : Option NameMap) (sup : List Bool)
+    (name : List Char) (h : hook = .absent ∨ (ncerts > 0 ∧ name = [])) :
+    getCertificate hook ncerts n2c sup name = selectStatic ncerts n2c sup name := by
+  rcases h with rfl | ⟨h1, rfl⟩
+  · simp [getCertificate]
+  · have : ¬ ncerts = 0 := by omega
+    simp [getCertificate, this]
+
+/-- A consulted callback that returns a certificate (an error) decides; one that returns (nil, nil) changes nothing. -/
+theorem getCertificate_hook_consulted (hook : GetCertHook) (ncerts : Nat) (n2c : Option NameMap) (sup : List Bool)
+    (name : List Char) (h : ncerts = 0 ∨ name ≠ []) :
+    getCertificate hook ncerts n2c sup name =
+      match hook with
+      | .retCert => .hookCert
+      | .retErr => .hookErr
+      | _ => selectStatic ncerts n2c sup name := by
+  have hc : ncerts = 0 ∨ name.length > 0 := by
+    rcases h with h | h
+    · exact Or.inl h
+    · exact Or.inr (List.length_pos_iff.mpr h)
+  cases hook <;> simp [getCertificate, hc]
+
+/-- `errNoCertificates` exactly when nothing is configured. -/
+theorem selectStatic_noCerts_iff (ncerts : Nat) (n2c : Option NameMap) (sup : List Bool) (name : List Char) :
+    selectStatic ncerts n2c sup name = .noCerts ↔ ncerts = 0 := by
+  constructor
+  · intro h
+    by_cases h0 : ncerts = 0
+    · exact h0
+    · by_cases h1 : ncerts = 1
+      · simp [selectStatic, h1] at h
+      · simp only [selectStatic, h0, h1, if_false] at h
+        split at h
+        · cases h
+        · split at h <;> cases h
+  · intro h
+    simp [selectStatic, h]
+
+/-- One certificate: it is presented whatever the client asks for. -/
+theorem single_certificate_always_presented (n2c : Option NameMap) (sup : List Bool) (name : List Char) :
+    selectStatic 1 n2c sup name = .cert 0 := by
+  simp [selectStatic]
+
+/-- The choice depends on the ServerName only through its lower-case form. -/
+theorem selection_case_insensitive (ncerts : Nat) (n2c : Option NameMap) (sup : List Bool) (a b : List Char)
+    (h : lowerName a = lowerName b) : selectStatic ncerts n2c sup a = selectStatic ncerts n2c sup b := by
+  simp [selectStatic, h]
+
+/-- `NameToCertificate` wins: an entry for the lower-cased ServerName is returned … -/
+theorem exact_name_entry_wins (ncerts : Nat) (m : NameMap) (sup : List Bool) (name : List Char) (i : Nat)
+    (hn : ncerts ≥ 2) (h : m.lookup (lowerName name) = some i) : selectStatic ncerts (some m) sup name = .cert i := by
+  have h0 : ¬ ncerts = 0 := by omega
+  have h1 : ¬ ncerts = 1 := by omega
+  simp [selectStatic, h0, h1, h]
+
+/-- … otherwise, for a non-empty name, the entry for the name with its first label replaced by `*`. -/
+theorem wildcard_entry_next (ncerts : Nat) (m : NameMap) (sup : List Bool) (name : List Char) (i : Nat)
+    (hn : ncerts ≥ 2) (hne : name ≠ []) (h : m.lookup (lowerName name) = none)
+    (hw : m.lookup (wildcardName (lowerName name)) = some i) : selectStatic ncerts (some m) sup name = .cert i := by
+  have h0 : ¬ ncerts = 0 := by omega
+  have h1 : ¬ ncerts = 1 := by omega
+  have hl : (lowerName name).length > 0 := by
+    simp only [lowerName, List.length_map]
+    exact List.length_pos_iff.mpr hne
+  simp [selectStatic, h0, h1, h, hl, hw]
+
+/-- No usable map entry: the FIRST certificate the client supports (`SupportsCertificate`), else the first certificate. -/
+theorem first_supported_else_first (ncerts : Nat) (n2c : Option NameMap) (sup : List Bool) (name : List Char)
+    (hn : ncerts ≥ 2)
+    (hmap : n2c = none ∨ ∃ m, n2c = some m ∧ m.lookup (lowerName name) = none ∧
+      (name = [] ∨ m.lookup (wildcardName (lowerName name)) = none)) :
+    (∃ i, selectStatic ncerts n2c sup name = .cert i ∧ sup[i]? = some true ∧ ∀ j, j < i → sup[j]? = some false) ∨
+    (selectStatic ncerts n2c sup name = .cert 0 ∧ ∀ b ∈ sup, b = false) := by
+  have h0 : ¬ ncerts = 0 := by omega
+  have h1 : ¬ ncerts = 1 := by omega
+  cases hf : firstTrue sup with
+  | some i =>
+    left
+    refine ⟨i, ?_, firstTrue_some sup i hf⟩
+    rcases hmap with rfl | ⟨m, rfl, he, hw⟩
+    · simp [selectStatic, h0, h1, hf]
+    · rcases hw with rfl | hw
+      · simp only [lowerName, List.map_nil] at he
+        simp [selectStatic, h0, h1, he, hf, lowerName]
+      · simp [selectStatic, h0, h1, he, hw, hf]
+  | none =>
+    right
+    refine ⟨?_, firstTrue_none sup hf⟩
+    rcases hmap with rfl | ⟨m, rfl, he, hw⟩
+    · simp [selectStatic, h0, h1, hf]
+    · rcases hw with rfl | hw
+      · simp only [lowerName, List.map_nil] at he
+        simp [selectStatic, h0, h1, he, hf, lowerName]
+      · simp [selectStatic, h0, h1, he, hw, hf]
+
+/-- Whatever is selected is one of the configured certificates (no out-of-range index), provided the map points at
+    configured certificates. -/
+theorem selected_is_configured (ncerts : Nat) (n2c : Option NameMap) (sup : List Bool) (name : List Char) (i : Nat)
+    (hlen : sup.length = ncerts) (hm : ∀ m k j, n2c = some m → m.lookup k = some j → j < ncerts)
+    (h : selectStatic ncerts n2c sup name = .cert i) : i < ncerts := by
+  by_cases h0 : ncerts = 0
+  · simp [selectStatic, h0] at h
+  · by_cases h1 : ncerts = 1
+    · simp [selectStatic, h1] at h
+      omega
+    · simp only [selectStatic, h0, h1, if_false] at h
+      split at h
+      · rename_i j hj
+        cases h
+        cases n2c with
+        | none => simp at hj
+        | some m =>
+          simp only at hj
+          split at hj
+          · rename_i k hk
+            cases hj
+            exact hm m _ _ rfl hk
+          · split at hj
+            · exact hm m _ _ rfl hj
+            · cases hj
+      · split at h
+        · rename_i k hk
+          cases h
+          have := firstTrue_lt sup _ hk
+          omega
+        · cases h
+          omega
+
+/-- `BuildNameToCertificate`: a name is mapped to the LAST certificate that contributes it (its DNS SANs, or its
+    CommonName when it has no SANs; a leaf that does not parse contributes nothing), and to nothing if none does. -/
+theorem build_maps_name_to_last_listing (certs : List LeafNames) (k : List Char) :
+    (buildNameToCertificate certs).lookup k = lastListing 0 certs k := by
+  rw [buildNameToCertificate, lookup_buildFrom]
+  cases lastListing 0 certs k <;> simp [NameMap.lookup]
+
+example : selectStatic 2 (some [("a.test".toList, 1)]) [true, false] "A.Test".toList = .cert 1 := by decide
+example : selectStatic 3 (some [("*.a.test".toList, 2)]) [false, true, false] "x.a.test".toList = .cert 2 := by decide
+example : selectStatic 3 none [false, true, true] "b.test".toList = .cert 1 := by decide
+example : (buildNameToCertificate [⟨true, "cn".toList, []⟩, ⟨true, "x".toList, ["cn".toList]⟩]).lookup "cn".toList = some 1 := by decide
+
+/-! ## which certificate the client offers (`getClientCertificate`, `CertificateRequestInfo.SupportsCertificate`,
+    `selectSignatureScheme`, `signatureSchemesForCertificate`, `certificateRequestInfoFromMsg`) -/
+
+/-- The scheme chosen is one the certificate can use and one the peer offered — or, when a TLS 1.2 peer offered none, one
+    of the two SHA-1 defaults of RFC 5246. -/
+theorem selected_scheme_sound (vers : Nat) (c : ClientCert) (peer : List Nat) (s : Nat)
+    (h : selectSignatureScheme vers c peer = some s) :
+    s ∈ signatureSchemesForCertificate vers c ∧
+    (s ∈ peer ∨ (peer = [] ∧ vers = Gen.versionTLS12 ∧ (s = Gen.pkcs1WithSHA1 ∨ s = Gen.ecdsaWithSHA1))) := by
+  simp only [selectSignatureScheme] at h
+  split at h
+  · cases h
+  · have hs := List.find?_some h
+    have hm := List.mem_of_find?_eq_some h
+    refine ⟨(isSupported_iff _ _).mp hs, ?_⟩
+    by_cases hp : peer.length = 0 ∧ vers = Gen.versionTLS12
+    · simp only [hp, and_self, if_true] at hm
+      right
+      exact ⟨List.length_eq_zero_iff.mp hp.1, hp.2, by simpa using hm⟩
+    · simp only [hp, if_false] at hm
+      exact Or.inl hm
+
+/-- … and it is the peer's FIRST acceptable one (peer preference order). -/
+theorem selected_scheme_peer_preference (vers : Nat) (c : ClientCert) (peer : List Nat) (s : Nat) (hp : peer ≠ [])
+    (h : selectSignatureScheme vers c peer = some s) :
+    peer.find? (fun x => isSupported x (signatureSchemesForCertificate vers c)) = some s := by
+  simp only [selectSignatureScheme] at h
+  split at h
+  · cases h
+  · simpa [hp] using h
+
+/-- `Certificate.SupportedSignatureAlgorithms`, when set, bounds what the certificate signs with. -/
+theorem schemes_respect_supported_algorithms (vers : Nat) (c : ClientCert) (l : List Nat) (s : Nat) (hl : c.ssa = some l)
+    (h : s ∈ signatureSchemesForCertificate vers c) : s ∈ l := by
+  simp only [signatureSchemesForCertificate, hl] at h
+  split at h
+  · simp at h
+  · exact (isSupported_iff _ _).mp (List.mem_filter.mp h).2
+
+/-- An RSA key signs only with a row of `rsaSignatureSchemes` (the table of the tree) whose modulus bound and version bound
+    it meets. -/
+theorem rsa_scheme_from_table (vers n : Nat) (ssa : Option (List Nat)) (iss : List (Option Nat)) (s : Nat)
+    (h : s ∈ signatureSchemesForCertificate vers ⟨.rsa n, ssa, iss⟩) :
+    ∃ minB maxV, (s, minB, maxV) ∈ Gen.rsaSignatureSchemes ∧ n ≥ minB ∧ vers ≤ maxV := by
+  simp only [signatureSchemesForCertificate, keySchemes] at h
+  cases ssa with
+  | none => exact mem_rsaSchemes n vers s _ h
+  | some l => exact mem_rsaSchemes n vers s _ (List.mem_filter.mp h).1
+
+/-- the table row check behind `tls13_rsa_only_pss` (over the generated tables) -/
+theorem rsa_table_tls13_rows_are_pss :
+    ∀ row ∈ Gen.rsaSignatureSchemes, Gen.versionTLS13 ≤ row.2.2 → sigTypeOf row.1 Gen.sigTypeTable = some Gen.signatureRSAPSS := by
+  decide
+
+/-- TLS 1.3: an RSA certificate signs with RSA-PSS only (PKCS #1 v1.5 is gone), whatever its size and
+    SupportedSignatureAlgorithms. -/
+theorem tls13_rsa_only_pss (n : Nat) (ssa : Option (List Nat)) (iss : List (Option Nat)) (s : Nat)
+    (h : s ∈ signatureSchemesForCertificate Gen.versionTLS13 ⟨.rsa n, ssa, iss⟩) :
+    sigTypeOf s Gen.sigTypeTable = some Gen.signatureRSAPSS := by
+  obtain ⟨minB, maxV, hrow, _, hv⟩ := rsa_scheme_from_table _ n ssa iss s h
+  exact rsa_table_tls13_rows_are_pss (s, minB, maxV) hrow hv
+
+/-- TLS 1.3: an ECDSA certificate signs only with the scheme of ITS curve; a curve outside P-256/384/521 with none. -/
+theorem tls13_ecdsa_bound_to_curve (curve : Nat) (ssa : Option (List Nat)) (iss : List (Option Nat)) (s : Nat)
+    (h : s ∈ signatureSchemesForCertificate Gen.versionTLS13 ⟨.ecdsa curve, ssa, iss⟩) :
+    (curve = 256 ∧ s = Gen.ecdsaWithP256AndSHA256) ∨ (curve = 384 ∧ s = Gen.ecdsaWithP384AndSHA384) ∨
+    (curve = 521 ∧ s = Gen.ecdsaWithP521AndSHA512) := by
+  have base : ∀ l, keySchemes Gen.versionTLS13 (.ecdsa curve) = some l → s ∈ l →
+      (curve = 256 ∧ s = Gen.ecdsaWithP256AndSHA256) ∨ (curve = 384 ∧ s = Gen.ecdsaWithP384AndSHA384) ∨
+      (curve = 521 ∧ s = Gen.ecdsaWithP521AndSHA512) := by
+    intro l hl hs
+    simp only [keySchemes, ne_eq, not_true_eq_false, if_false] at hl
+    by_cases h1 : curve = 256
+    · simp [h1] at hl; subst hl; simp at hs; exact Or.inl ⟨h1, hs⟩
+    · by_cases h2 : curve = 384
+      · simp [h2] at hl; subst hl; simp at hs; exact Or.inr (Or.inl ⟨h2, hs⟩)
+      · by_cases h3 : curve = 521
+        · simp [h3] at hl; subst hl; simp at hs; exact Or.inr (Or.inr ⟨h3, hs⟩)
+        · simp [h1, h2, h3] at hl
+  simp only [signatureSchemesForCertificate] at h
+  cases hk : keySchemes Gen.versionTLS13 (.ecdsa curve) with
+  | none => simp [hk] at h
+  | some l =>
+    simp only [hk] at h
+    cases ssa with
+    | none => exact base l hk h
+    | some f => exact base l hk (List.mem_filter.mp h).1
+
+/-- A key that is not a `crypto.Signer`, or a signer of an unknown kind, is never offered. -/
+theorem unusable_key_never_selected (vers : Nat) (c : ClientCert) (peer : List Nat)
+    (hk : c.key = .notSigner ∨ c.key = .otherSigner) : selectSignatureScheme vers c peer = none := by
+  rcases hk with hk | hk <;> simp [selectSignatureScheme, signatureSchemesForCertificate, keySchemes, hk]
+
+/-- What the client sends in answer to a CertificateRequest: the FIRST configured chain the request supports … -/
+theorem client_sends_first_supported (vers : Nat) (schemes cas : List Nat) (certs : List ClientCert) (i : Nat)
+    (h : getClientCertificate vers schemes cas certs = some i) :
+    (∃ c, certs[i]? = some c ∧ criSupports vers schemes cas c = true) ∧
+    ∀ j, j < i → ∃ c, certs[j]? = some c ∧ criSupports vers schemes cas c = false :=
+  getClientCertificate_some vers schemes cas certs i h
+
+/-- … and an empty Certificate message exactly when the request supports none of them. -/
+theorem client_sends_none_iff (vers : Nat) (schemes cas : List Nat) (certs : List ClientCert) :
+    getClientCertificate vers schemes cas certs = none ↔ ∀ c ∈ certs, criSupports vers schemes cas c = false :=
+  getClientCertificate_none vers schemes cas certs
+
+/-- A chain the request supports can be signed for with a scheme the server listed, and — when the server named CAs — has
+    an element issued by one of them, every element before it parsing.  (So a certificate from a CA the server did not
+    name is withheld: the fact the hk stream's descriptor mapping uses.) -/
+theorem supported_chain_facts (vers : Nat) (schemes cas : List Nat) (c : ClientCert)
+    (h : criSupports vers schemes cas c = true) :
+    (∃ s, selectSignatureScheme vers c schemes = some s) ∧ (cas = [] ∨ ∃ ca, ca ∈ cas ∧ some ca ∈ c.issuers) := by
+  simp only [criSupports] at h
+  cases hs : selectSignatureScheme vers c schemes with
+  | none => simp [hs] at h
+  | some s =>
+    simp only [hs] at h
+    refine ⟨⟨s, rfl⟩, ?_⟩
+    by_cases hc : cas.length = 0
+    · exact Or.inl (List.length_eq_zero_iff.mp hc)
+    · simp only [hc, if_false] at h
+      exact Or.inr (chainAcceptable_sound cas c.issuers h)
+
+/-- The certificate actually sent therefore has these facts (corollary for the handshake: `hasCert` of the decision model
+    is true only for such a chain). -/
+theorem sent_certificate_acceptable (vers : Nat) (schemes cas : List Nat) (certs : List ClientCert) (i : Nat)
+    (h : getClientCertificate vers schemes cas certs = some i) :
+    ∃ c, certs[i]? = some c ∧ (∃ s, selectSignatureScheme vers c schemes = some s) ∧
+      (cas = [] ∨ ∃ ca, ca ∈ cas ∧ some ca ∈ c.issuers) := by
+  obtain ⟨⟨c, hc, hsup⟩, _⟩ := getClientCertificate_some vers schemes cas certs i h
+  exact ⟨c, hc, supported_chain_facts vers schemes cas c hsup⟩
+
+/-- TLS 1.2 CertificateRequest: the schemes handed to selection are among those the server sent, each of a family its
+    certificate_types allow (`typeAndHashFromSignatureScheme` of the tree). -/
+theorem cri_schemes_filtered (types algs : List Nat) (s : Nat) (h : s ∈ criSchemes types true algs) :
+    s ∈ algs ∧ ∃ t, sigTypeOf s Gen.sigTypeTable = some t ∧
+      (((t = Gen.signatureECDSA ∨ t = Gen.signatureEd25519) ∧ types.any (· == Gen.certTypeECDSASign) = true) ∨
+       ((t = Gen.signatureRSAPSS ∨ t = Gen.signaturePKCS1v15) ∧ types.any (· == Gen.certTypeRSASign) = true)) := by
+  simp only [criSchemes, Bool.not_true, Bool.false_eq_true, if_false] at h
+  exact mem_filterSchemes _ _ algs s h
+
+/-- Before TLS 1.2 the made-up list holds PKCS #1 v1.5 / ECDSA schemes only, again by certificate type. -/
+theorem cri_schemes_legacy (types algs : List Nat) (s : Nat) (h : s ∈ criSchemes types false algs) :
+    (sigTypeOf s Gen.sigTypeTable = some Gen.signaturePKCS1v15 ∧ types.any (· == Gen.certTypeRSASign) = true) ∨
+    (sigTypeOf s Gen.sigTypeTable = some Gen.signatureECDSA ∧ types.any (· == Gen.certTypeECDSASign) = true) := by
+  have hE : ∀ x ∈ [Gen.ecdsaWithP256AndSHA256, Gen.ecdsaWithP384AndSHA384, Gen.ecdsaWithP521AndSHA512],
+      sigTypeOf x Gen.sigTypeTable = some Gen.signatureECDSA := by decide
+  have hR : ∀ x ∈ [Gen.pkcs1WithSHA256, Gen.pkcs1WithSHA384, Gen.pkcs1WithSHA512, Gen.pkcs1WithSHA1],
+      sigTypeOf x Gen.sigTypeTable = some Gen.signaturePKCS1v15 := by decide
+  have hB : ∀ x ∈ [Gen.ecdsaWithP256AndSHA256, Gen.ecdsaWithP384AndSHA384, Gen.ecdsaWithP521AndSHA512,
+      Gen.pkcs1WithSHA256, Gen.pkcs1WithSHA384, Gen.pkcs1WithSHA512, Gen.pkcs1WithSHA1],
+      sigTypeOf x Gen.sigTypeTable = some Gen.signaturePKCS1v15 ∨ sigTypeOf x Gen.sigTypeTable = some Gen.signatureECDSA := by
+    decide
+  simp only [criSchemes, Bool.not_false, if_true] at h
+  cases hr : types.any (· == Gen.certTypeRSASign) <;> cases he : types.any (· == Gen.certTypeECDSASign) <;>
+    simp only [hr, he, Bool.and_true, Bool.and_false, Bool.and_self, Bool.false_eq_true, if_false, if_true] at h
+  · simp at h
+  · exact Or.inr ⟨hE s h, rfl⟩
+  · exact Or.inl ⟨hR s h, rfl⟩
+  · rcases hB s h with h' | h'
+    · exact Or.inl ⟨h', rfl⟩
+    · exact Or.inr ⟨h', rfl⟩
+
+example : selectSignatureScheme Gen.versionTLS12 ⟨.rsa 256, none, []⟩ [Gen.ed25519, 0x0804, 0x0401] = some 0x0804 := by decide
+example : getClientCertificate Gen.versionTLS12 [0x0403] [7] [⟨.ecdsa 256, none, [some 3]⟩, ⟨.ecdsa 256, none, [some 5, some 7]⟩] = some 1 := by decide
+example : criSupports Gen.versionTLS13 [0x0804] [] ⟨.rsa 256, none, []⟩ = true := by decide
+example : 0x0403 ∈ criSchemes [64] true [0x0401, 0x0403] := by decide
+example : 0x0401 ∈ criSchemes [1] false [] := by decide
+example : 0x0804 ∈ signatureSchemesForCertificate Gen.versionTLS13 ⟨.rsa 256, none, []⟩ := by decide
+example : 0x0403 ∈ signatureSchemesForCertificate Gen.versionTLS13 ⟨.ecdsa 256, some [0x0403], []⟩ := by decide
+
+/-! ## the ClientAuth policy (`processCertsFromClient`) -/
+
+/-- `requiresClientCert` of the tree (run on ClientAuthType 0..7) is the model's, and the model's numeric form agrees with
+    the one on `Mode`. -/
+theorem requiresClientCert_table : ∀ row ∈ Gen.requiresClientCertTable, requiresClientCertN row.1 = row.2 := by decide
+
+theorem requiresClientCert_agrees (m : Mode) : requiresClientCertN m.toNat = requiresClientCert m := by
+  cases m <;> decide
+
+/-- T1: every row of the decision table of the REAL `processCertsFromClient` (5 ClientAuthTypes x 8 certificate kinds:
+    alert or acceptance, len(peerCertificates), verifiedChains set) is the model's value … -/
+theorem policy_table_is_model : ∀ row ∈ Gen.clientAuthTable,
+    (presentedOfKind row.2.1).map (fun p => processCerts row.1 p .absent) =
+      some ⟨if row.2.2.1 = 0 then none else some row.2.2.1, row.2.2.2.1, decide (row.2.2.2.2 > 0), false⟩ := by
+  decide
+
+/-- … and the table is complete: all 40 (policy, kind) pairs, each once. -/
+theorem policy_table_complete :
+    Gen.clientAuthTable.map (fun r => (r.1, r.2.1)) =
+      (List.range 5).flatMap (fun m => (List.range 8).map (fun k => (m, k))) := by
+  decide
+
+/-- A policy that REQUIRES a certificate never accepts an empty Certificate message (any ClientAuthType value, any
+    callback). -/
+theorem policy_required_needs_certificate (m : Nat) (p : Presented) (vpc : Hook) (hreq : requiresClientCertN m = true)
+    (h : (processCerts m p vpc).alert = none) : p.count > 0 := by
+  by_cases hc : p.count = 0
+  · rw [processCerts_eq, hreq] at h
+    simp [processCertsB, hc] at h
+  · omega
+
+/-- A VERIFYING policy (ClientAuthType >= VerifyClientCertIfGiven) accepts a presented certificate only if the chain
+    verifies (ClientCAs, configured time, ExtKeyUsageClientAuth), and then records the verified chains. -/
+theorem policy_verifying_needs_chain (m : Nat) (p : Presented) (vpc : Hook) (hm : m ≥ Gen.verifyClientCertIfGiven)
+    (hc : p.count > 0) (h : (processCerts m p vpc).alert = none) :
+    p.parses = true ∧ p.verifies = true ∧ p.keyKnown = true ∧ (processCerts m p vpc).chains = true ∧
+      (processCerts m p vpc).peers = p.count := by
+  have hd : decide (m ≥ Gen.verifyClientCertIfGiven) = true := by simpa using hm
+  have hc0 : ¬ p.count = 0 := by omega
+  rw [processCerts_eq, hd] at h ⊢
+  generalize requiresClientCertN m = r at h ⊢
+  obtain ⟨cnt, pa, ve, kk⟩ := p
+  simp only at hc hc0
+  cases pa <;> cases ve <;> cases kk <;> cases vpc <;> cases r <;>
+    simp_all [processCertsB, Hook.installed]
+
+/-- A non-verifying policy never looks at the chain: the outcome does not depend on whether it verifies. -/
+theorem policy_nonverifying_ignores_chain (m : Nat) (cnt : Nat) (pa kk v1 v2 : Bool) (vpc : Hook)
+    (hm : m < Gen.verifyClientCertIfGiven) :
+    processCerts m ⟨cnt, pa, v1, kk⟩ vpc = processCerts m ⟨cnt, pa, v2, kk⟩ vpc := by
+  have hd : decide (m ≥ Gen.verifyClientCertIfGiven) = false := by simpa using hm
+  rw [processCerts_eq, processCerts_eq, hd]
+  simp [processCertsB]
+
+/-- `VerifyPeerCertificate` is reached only after every check passed: never for a refused chain, never for a missing
+    required certificate, never for an unparseable or unsupported certificate. -/
+theorem policy_callback_after_checks (m : Nat) (p : Presented) (vpc : Hook) (h : (processCerts m p vpc).vpcRan = true) :
+    (p.count > 0 → p.parses = true ∧ p.keyKnown = true) ∧ (p.count = 0 → requiresClientCertN m = false) ∧
+    (m ≥ Gen.verifyClientCertIfGiven → p.count > 0 → p.verifies = true) := by
+  rw [processCerts_eq] at h
+  have hv : ∀ v, decide (m ≥ Gen.verifyClientCertIfGiven) = v → m ≥ Gen.verifyClientCertIfGiven → v = true := by
+    intro v e hm
+    rw [← e]
+    simpa using hm
+  generalize hdv : decide (m ≥ Gen.verifyClientCertIfGiven) = v at h
+  have hv' := hv v hdv
+  generalize requiresClientCertN m = r at h ⊢
+  obtain ⟨cnt, pa, ve, kk⟩ := p
+  refine ⟨?_, ?_, ?_⟩
+  · intro hc
+    have hc0 : ¬ cnt = 0 := by simp only at hc; omega
+    cases pa <;> cases ve <;> cases kk <;> cases vpc <;> cases r <;> cases v <;>
+      simp_all [processCertsB, Hook.installed]
+  · intro hc
+    simp only at hc
+    subst hc
+    cases r <;> simp_all [processCertsB]
+  · intro hm hc
+    have hvt := hv' hm
+    subst hvt
+    have hc0 : ¬ cnt = 0 := by simp only at hc; omega
+    cases pa <;> cases ve <;> cases kk <;> cases vpc <;> cases r <;>
+      simp_all [processCertsB, Hook.installed]
+
+/-- A callback that returns an error makes the function fail; one that is absent or returns nil changes nothing but the
+    `vpcRan` flag. -/
+theorem policy_callback_only_restricts (m : Nat) (p : Presented) (vpc : Hook)
+    (h : (processCerts m p vpc).alert = none) : (processCerts m p .absent).alert = none ∧ vpc ≠ .reject := by
+  rw [processCerts_eq] at h ⊢
+  generalize decide (m ≥ Gen.verifyClientCertIfGiven) = v at h ⊢
+  generalize requiresClientCertN m = r at h ⊢
+  obtain ⟨cnt, pa, ve, kk⟩ := p
+  by_cases hc : cnt = 0
+  · subst hc
+    cases r <;> cases vpc <;> simp_all [processCertsB]
+  · have hpos : cnt > 0 := by omega
+    cases pa <;> cases ve <;> cases kk <;> cases vpc <;> cases r <;> cases v <;>
+      simp_all [processCertsB, Hook.installed]
+
+/-- Refinement: on well-formed certificates the function-level model is the certificate stage of the handshake decision
+    model (`serverCertChecksPass` + the callback), for every requesting policy. -/
+theorem policy_refines_decision_model (m : Mode) (cnt : Nat) (ve cv : Bool) (vpc : Hook) (hm : m ≠ .noClientCert) :
+    ((processCerts m.toNat ⟨cnt, true, ve, true⟩ vpc).alert == none) =
+      (serverCertChecksPass m ⟨decide (cnt > 0), ve, cv⟩ && vpc.allows) := by
+  by_cases hc : cnt = 0
+  · subst hc
+    cases m <;> cases ve <;> cases vpc <;> simp_all [processCerts, serverCertChecksPass, requiresClientCertN,
+      requiresClientCert, Mode.toNat, Hook.allows, Hook.installed, Gen.requireAnyClientCert, Gen.requireAndVerifyClientCert,
+      Gen.verifyClientCertIfGiven]
+  · have hpos : cnt > 0 := by omega
+    cases m <;> cases ve <;> cases vpc <;> simp_all [processCerts, serverCertChecksPass, requiresClientCertN,
+      requiresClientCert, Mode.toNat, Hook.allows, Hook.installed, Gen.requireAnyClientCert, Gen.requireAndVerifyClientCert,
+      Gen.verifyClientCertIfGiven]
+
+example : requiresClientCertN 4 = true := by decide
+example : (processCerts 4 ⟨1, true, true, true⟩ .permit).alert = none := by decide
+example : (processCerts 3 ⟨1, true, true, true⟩ .permit).vpcRan = true := by decide
+example : (1 : Nat) < Gen.verifyClientCertIfGiven := by decide
+example : Mode.request ≠ Mode.noClientCert := by decide
 
 end ZV.C27
